@@ -8,6 +8,8 @@ import subprocess
 
 VERIF = os.path.dirname(os.path.dirname(os.path.abspath(__file__)))
 REPO = os.environ.get('VERIF_REPO', '/repo')
+# build output, replay files and evidence go under VERIF unless a scratch root is given (self-tests on mutated copies)
+SCRATCH = os.environ.get('VERIF_SCRATCH') or VERIF
 
 
 class NativeError(Exception):
@@ -41,10 +43,59 @@ def generated_rs(info):
     return '\n'.join(out) + '\n'
 
 
+def xgen_rs(info):
+    """generated items used by xspec.rs: KeyCode by index, reference scancode tables (None = known-finding gap), layout dispatch"""
+    import json as _json
+    out = ['// generated on every run', 'pub const X_NKEYS: u8 = %d;' % len(info.keycodes), 'pub fn x_keycode(i: u8) -> KeyCode {', '    match i % X_NKEYS {']
+    for i, k in enumerate(info.keycodes):
+        out.append('        %d => KeyCode::%s,' % (i, k))
+    out.append('        _ => KeyCode::%s,' % info.keycodes[0])
+    out.append('    }')
+    out.append('}')
+    ref = _json.load(open(os.path.join(VERIF, 'spec', 'scancodes.json'), encoding='utf-8'))
+    fp = os.path.join(VERIF, 'known_findings.json')
+    gaps = set()
+    if os.path.exists(fp):
+        for f in _json.load(open(fp, encoding='utf-8')).get('findings', []):
+            if f.get('status') == 'open' and f['property'] in ('C01', 'C02'):
+                gaps.add(f['obligation'])
+    out.append('/// reference table (spec/scancodes.json): Some(Ok(key)) / Some(Err(UnknownKeyCode)); None for cells listed as open known findings')
+    out.append('pub fn ref_table(set: u8, ctx: u8, code: u8) -> Option<Result<KeyCode, Error>> {')
+    out.append('    match (set, ctx, code) {')
+    for setn, sn, prop in (('set1', 1, 'C02'), ('set2', 2, 'C01')):
+        for ci, ctx in enumerate(('plain', 'e0', 'e1')):
+            for code, key in sorted(ref[setn][ctx].items(), key=lambda kv: int(kv[0], 16)):
+                cid = '%s/%s/%s/%s' % (prop, setn, ctx, code)
+                if cid in gaps:
+                    out.append('        (%d, %d, %s) => None,' % (sn, ci, code))
+                elif key in info.keycodes:
+                    out.append('        (%d, %d, %s) => Some(Ok(KeyCode::%s)),' % (sn, ci, code, key))
+            for g in sorted(gaps):
+                pr, s_, c_, code = g.split('/')
+                if s_ == setn and c_ == ctx and code not in ref[setn][ctx]:
+                    out.append('        (%d, %d, %s) => None,' % (sn, ci, code))
+    out.append('        _ => Some(Err(Error::UnknownKeyCode)),')
+    out.append('    }')
+    out.append('}')
+    lay = [l for l in info.layouts if 'AnyLayout' not in l]
+    out.append('pub const X_NLAYOUTS: u8 = %d;' % len(lay))
+    out.append('pub fn x_layout_call(layout: u8, form: u8, k: KeyCode, m: &Modifiers, h: HandleControl) -> DecodedKey {')
+    out.append('    match (layout % X_NLAYOUTS, form % 3) {')
+    for i, l in enumerate(lay):
+        out.append('        (%d, 0) => %s.map_keycode(k, m, h),' % (i, l))
+        out.append('        (%d, 1) => AnyLayout::%s(%s).map_keycode(k, m, h),' % (i, l, l))
+        out.append('        (%d, _) => {{ let a = AnyLayout::%s(%s); let r = &a; r.map_keycode(k, m, h) }}' % (i, l, l))
+    out.append('        _ => DecodedKey::RawKey(k),')
+    out.append('    }')
+    out.append('}')
+    out.append('pub const X_LAYOUT_NAMES: &[&str] = &[%s];' % ', '.join('"%s"' % l for l in lay))
+    return '\n'.join(out) + '\n'
+
+
 def build(info):
     """returns path of the replayer binary built against REPO's current tree"""
     tag = hashlib.sha256(REPO.encode()).hexdigest()[:8]
-    d = os.path.join(VERIF, 'build', 'replayer-' + tag)
+    d = os.path.join(SCRATCH, 'build', 'replayer-' + tag)
     os.makedirs(os.path.join(d, 'src'), exist_ok=True)
     lockf = open(os.path.join(d, '.lock'), 'w')
     fcntl.flock(lockf, fcntl.LOCK_EX)
@@ -53,8 +104,10 @@ def build(info):
             if not os.path.exists(path) or open(path).read() != text:
                 open(path, 'w').write(text)
         put(os.path.join(d, 'Cargo.toml'), open(os.path.join(VERIF, 'replayer', 'Cargo.toml.in')).read().replace('@REPO@', REPO))
-        put(os.path.join(d, 'src', 'main.rs'), open(os.path.join(VERIF, 'replayer', 'src', 'main.rs')).read())
+        for fn in os.listdir(os.path.join(VERIF, 'replayer', 'src')):
+            put(os.path.join(d, 'src', fn), open(os.path.join(VERIF, 'replayer', 'src', fn)).read())
         put(os.path.join(d, 'src', 'generated.rs'), generated_rs(info))
+        put(os.path.join(d, 'src', 'xgen.rs'), xgen_rs(info))
         env = dict(os.environ)
         env['CARGO_NET_OFFLINE'] = 'true'
         env['CARGO_TARGET_DIR'] = os.path.join(d, 'target')
